@@ -77,7 +77,8 @@ def machine_shard(cfg_idx: int, seed: int, examples: int, steps: int, known: lis
         if "apps" not in shared or shared["n"] > 60:
             shared["apps"] = {}
             for kind in ("mem", "sqlite"):
-                app = apps.make_app(kind)
+                # min_size_to_cache=8: string arguments are externalised (reference keys), ints stay inline
+                app = apps.make_app(kind, min_size_to_cache=8)
                 opts: dict[str, Any] = dict(registration_concurrency=CC[mode], on_diff_non_key_args_raise=raise_opt)
                 if keys:
                     opts["key_arguments"] = keys
@@ -108,7 +109,7 @@ def machine_shard(cfg_idx: int, seed: int, examples: int, steps: int, known: lis
             app = self.apps[kind][0]
             return (app.orchestrator.count_invocations(), app.broker.count_invocations())
 
-        @rule(k=st.integers(1, 2), v=st.integers(0, 1), w=st.integers(0, 1), how=st.integers(0, 4))
+        @rule(k=st.sampled_from([1, 2, "key-aaaaaaaaaaaa", "key-bbbbbbbbbbbb"]), v=st.sampled_from([0, 1, "val-cccccccccccc"]), w=st.integers(0, 1), how=st.integers(0, 4))
         def submit(self, k, v, w, how):
             a = (k, v, w)
             self._t("submit", a, how)
